@@ -1,14 +1,58 @@
+import os, re
 from checks.generic import standard
 
+# Model/CertgenObs.v c02_violation: the property's predicate evaluated on the OBSERVED answer of a case
+# on which implementation and model differ
+VIOLATION_CLASS = {
+    1: ("other-user-issued", "a request made on behalf of another user name is refused"),
+    2: ("wrong-name", "the certificate names exactly the authenticated user"),
+    3: ("wrong-key", "the certificate certifies exactly the submitted key"),
+    4: ("not-end-entity", "end-entity user certificate (SSH user type; X.509 non-CA with client-authentication usage)"),
+    5: ("not-verifiable", "the certificate verifies under the CA material the server publishes"),
+    6: ("extensions", "SSH extensions are exactly the five standard ones plus every configured template with the user name substituted "
+                      "(Proofs/CertgenSpec.v spec_ext); when a configured template cannot be expanded for the user nothing may be issued (c02_failed_expansion_refused)"),
+    7: ("no-error", "a response without certificate must be an error"),
+    8: ("extra-names", "the authenticated user's name is the only identity in the certificate (c02_no_other_names): no further principal, critical option, subject attribute or subject-alternative-name entry"),
+}
+
+def model_oracle(ctx, res):
+    val = res.get("c02_violating")
+    if not val or val == "[]":
+        return
+    lines = []
+    p = os.path.join(ctx.work, "CasesC02.idx")
+    if os.path.exists(p):
+        lines = open(p).read().split("\n")
+    seen = {}
+    for m in re.finditer(r"\(\s*(\d+)(?:%nat)?\s*,\s*(\d+)\s*\)", val):
+        i, cls = int(m.group(1)), int(m.group(2))
+        cname, oracle = VIOLATION_CLASS.get(cls, ("class-%d" % cls, "property predicate on the observation"))
+        key = "C02:model-oracle:" + cname
+        n = seen.get(key, 0)
+        seen[key] = n + 1
+        if n >= 20:
+            continue
+        line = lines[i] if i < len(lines) else "case %d" % i
+        ctx.hits.append({"key": key, "oracle": oracle, "what": line.split("\t", 1)[-1][:600], "case": line,
+                         "observed": {"index": i, "violation_class": cname}, "kind": "input"})
+
 def run(ctx):
+    orig = ctx.eval_cases
+    def eval_cases(vfile, label="correspondence", timeout=1800):
+        res = orig(vfile, label, timeout)
+        if res is not None:
+            model_oracle(ctx, res)
+        return res
+    ctx.eval_cases = eval_cases
     return standard(ctx,
-        props=[("Props.C02", ["c02_binding", "c02_signed_by_loaded_signer", "c02_published_for_every_initial_list", "c02_other_user_refused", "c02_extensions", "c02_user_is_normalised",
+        props=[("Props.C02", ["c02_binding", "c02_signed_by_loaded_signer", "c02_published_for_every_initial_list", "c02_other_user_refused", "c02_extensions",
+                              "c02_failed_expansion_refused", "c02_names_injective", "c02_no_other_names", "c02_user_is_normalised",
                               "c02_normalise_idempotent", "c02_old_krb_refuted"])],
         harness=("TestVerif_C02", ["kmd/common.go", "kmd/creds.go", "kmd/consts.go", "kmd/c01.go", "kmd/c02.go"]),
         cases=("CasesC02.v", [("c02_mismatches", "every decoded certificate (names, key id, key, type, CA flag, usages, extension map, verifying CA, organisations, groups, service methods, PKINIT name) and every refusal = model certgen on the same request"),
                               ("c02_login_mismatches", "session subject minted by /api/v0/login = model normalise of the submitted name")], "CasesC02.idx"),
         trusted=["x/crypto/ssh and crypto/x509 encode and decode the certificates (the model's certificate is the abstract certdesc); signatures are checked by the real verifiers against the CA material fetched from /public/sshca and /public/x509ca of the same state",
-                 "mvdan.cc/sh shell.Expand is an oracle of the model; the harness calls it on every template string for every user and ships the results",
+                 "mvdan.cc/sh shell.Expand is an oracle of the model; the harness calls it on every template string for every user and ships the results (including which templates it rejects for which user)",
                  "the directory (group database) answers are inputs of the model; the harness mirrors its lower-case lookup",
                  "strings.ToLower is modelled on ASCII letters only"],
         assumptions=["sessions are minted by the harness with the state's own signer for arbitrary subject strings (any name a password backend could accept); logins through /api/v0/login are exercised for the htpasswd users"])
